@@ -238,6 +238,24 @@ def rqa_monitor(ctx, obj, cname, R, miss, tags, case, cid, r,
     R = np.asarray(R)
     n = R.shape[0]
     sym = R.shape[0] == R.shape[1] and np.array_equal(R, R.T)
+    # recurrence probability at a lag (documented: diagonal sum / (N - lag))
+    # of whatever matrix the object reports (single, joint plots and their
+    # networks)
+    if size_ok and R.ndim == 2 and R.shape[0] == R.shape[1] and n >= 1 \
+            and callable(getattr(obj, "recurrence_probability", None)):
+        lag_p = int(r.integers(0, n))
+        okp, vp = ctx.call(obj.recurrence_probability, lag_p)
+        ctx.evals()
+        wantp = float(np.trace(R, lag_p)) / (n - lag_p)
+        ctx.count("recurrence_probability_checked")
+        if not okp:
+            ctx.violation(sig(cname, "recurrence_probability",
+                              f"raises:{type(vp).__name__}", tags),
+                          {**case, "exc": repr(vp)}, cid)
+        elif not close(vp, wantp):
+            ctx.violation(sig(cname, "recurrence_probability", "differs",
+                              tags), {**case, "lag": lag_p, "lib": vp,
+                                      "ref": wantp}, cid)
     refh = None
     if size_ok and R.ndim == 2 and R.shape[0] == R.shape[1]:
         refh = {"diagline_dist": ref.diag_hist(R, miss),
